@@ -6,6 +6,7 @@ with env FLEXLINT_REPO for the self-test on scratch copies).  No repository code
 from __future__ import annotations
 
 import ast
+import copy
 import hashlib
 import os
 from dataclasses import dataclass, field
@@ -252,7 +253,78 @@ class Program:
                         self.examples[f] = ModuleInfo("examples." + f[:-3], p, os.path.relpath(p, self.repo), tree, src)
         for m in list(self.modules.values()) + list(self.examples.values()):
             self._index_module(m)
+        self._normalise_aliases()
         self._normalise_calls()
+
+    def _normalise_aliases(self) -> None:
+        """Third canonicalising pass: copy propagation of aliases of FINAL attributes.
+
+        `x = self.a` where `a` is never stored anywhere in the sources outside an `__init__` (so `self.a` denotes the same
+        object for the whole life of the instance), x is bound exactly once in the function, is no parameter / global /
+        nonlocal and is not referenced from a nested scope: every load of x is analysed as `self.a` and the binding becomes
+        `pass`.  `buf = self._cbf_buffer; buf[k] = v` and `self._cbf_buffer[k] = v` then look the same to every rule
+        (locksets, write effects, provenance)."""
+        stored_outside_init = set()
+        for m in list(self.modules.values()):
+            for fn in ast.walk(m.tree):
+                if not isinstance(fn, (ast.FunctionDef, ast.AsyncFunctionDef)):
+                    continue
+                for n in ast.walk(fn):
+                    if isinstance(n, ast.Attribute) and isinstance(n.ctx, (ast.Store, ast.Del)):
+                        if fn.name not in ("__init__", "__post_init__") or not (isinstance(n.value, ast.Name) and n.value.id == "self"):
+                            stored_outside_init.add(n.attr)
+            # class-level / dataclass fields can be re-bound through the instance as well: covered by the scan above
+        n_inlined = 0
+        for m in list(self.modules.values()):
+            for fn in [x for x in ast.walk(m.tree) if isinstance(x, (ast.FunctionDef, ast.AsyncFunctionDef))]:
+                params = {a.arg for a in fn.args.posonlyargs + fn.args.args + fn.args.kwonlyargs}
+                if fn.args.vararg:
+                    params.add(fn.args.vararg.arg)
+                if fn.args.kwarg:
+                    params.add(fn.args.kwarg.arg)
+                if "self" not in params:
+                    continue
+                shared, stores = set(), {}
+                for n in ast.walk(fn):
+                    if isinstance(n, (ast.Global, ast.Nonlocal)):
+                        shared.update(n.names)
+                    elif n is not fn and isinstance(n, (ast.FunctionDef, ast.AsyncFunctionDef, ast.Lambda, ast.ClassDef, ast.GeneratorExp,
+                                                         ast.ListComp, ast.SetComp, ast.DictComp)):
+                        for x in ast.walk(n):
+                            if isinstance(x, ast.Name):
+                                shared.add(x.id)
+                    if isinstance(n, ast.Name) and isinstance(n.ctx, (ast.Store, ast.Del)):
+                        stores[n.id] = stores.get(n.id, 0) + 1
+                    if isinstance(n, ast.ExceptHandler) and n.name:
+                        stores[n.name] = stores.get(n.name, 0) + 1
+                cands = {}
+                for blk in ast.walk(fn):
+                    for fld in ("body", "orelse", "finalbody"):
+                        lst = getattr(blk, fld, None)
+                        if not (isinstance(lst, list) and lst and isinstance(lst[0], ast.stmt)):
+                            continue
+                        for i, st in enumerate(lst):
+                            if isinstance(st, ast.Assign) and len(st.targets) == 1 and isinstance(st.targets[0], ast.Name) \
+                                    and isinstance(st.value, ast.Attribute) and isinstance(st.value.value, ast.Name) and st.value.value.id == "self":
+                                x, a = st.targets[0].id, st.value.attr
+                                if x in params or x in shared or stores.get(x, 0) != 1 or a in stored_outside_init:
+                                    continue
+                                cands[x] = (lst, i, st)
+                if not cands:
+                    continue
+
+                class R(ast.NodeTransformer):
+                    def visit_Name(self, n):
+                        if isinstance(n.ctx, ast.Load) and n.id in cands:
+                            return ast.copy_location(copy.deepcopy(cands[n.id][2].value), n)
+                        return n
+                for x, (lst, i, st) in cands.items():
+                    lst[i] = ast.copy_location(ast.Pass(), st)
+                    n_inlined += 1
+                for k, b in enumerate(fn.body):
+                    fn.body[k] = R().visit(b)
+                ast.fix_missing_locations(fn)
+        self.aliases_inlined = n_inlined
 
     def _normalise_calls(self) -> None:
         """Second canonicalising pass (after indexing, before any flow is built): a call that passes arguments to a
